@@ -23,6 +23,12 @@ demo_without=$(run_demo "$out/demo_without.log")
 (cd "$v" && git apply --whitespace=nowarn "$out/patch.diff") || { echo "PATCH DOES NOT APPLY"; git -C /repo worktree remove --force "$v"; exit 2; }
 (cd "$v" && go build ./... >"$out/build.log" 2>&1); build=$?
 (cd "$v" && go test -vet=off -count=1 $(go list ./... | grep -v seeddemo) >"$out/suite.log" 2>&1); suite=$?
+# the suite uses a fixed NATS port: a collision with a suite running elsewhere is transient
+for try in 1 2 3; do
+  if [ $suite -ne 0 ] && grep -q "Unable to start NATS Server" "$out/suite.log"; then
+    sleep 5; (cd "$v" && go test -vet=off -count=1 $(go list ./... | grep -v seeddemo) >"$out/suite.log" 2>&1); suite=$?
+  fi
+done
 demo_with=$(run_demo "$out/demo_with.log")
 git -C /repo worktree remove --force "$v"
 echo "seed=$id build=$build suite=$suite demo_without=$demo_without demo_with=$demo_with"
